@@ -39,6 +39,28 @@ func gen(t *rapid.T) *Case {
 	}
 	c.Sequential = rapid.Bool().Draw(t, "sequential")
 	n := rapid.IntRange(1, 8).Draw(t, "nsteps")
+	if rapid.IntRange(0, 5).Draw(t, "takeover-scenario") == 0 {
+		// owner A holds a value other nodes' constraints read (a defaulted leaf set explicitly, the target of a keyed
+		// leafref, ...), owner B holds the dependent node; later A goes away or changes and something else
+		// (schema default, running value, another owner) takes over
+		pairs := [][2]string{{"defmode-on", "must-default-ok"}, {"defmode-on-dep", "must-default-ok"}, {"defmode-off", "must-default-ok"},
+			{"via-ok", "via-ok2"}, {"via-ok", "wref-ok"}, {"svc-a", "via-ok"}, {"svc-a", "wref-ok"}, {"via-ok2", "chk-ok"}}
+		p := rapid.SampledFrom(pairs).Draw(t, "takeover-pair")
+		oa, ob := 0, 1
+		if rapid.Bool().Draw(t, "takeover-swap") {
+			oa, ob = 1, 0
+		}
+		mk := func(o int, frag string) vlib.IntentOp {
+			return vlib.IntentOp{Owner: o, Kind: "set", Form: "typed", PrioIx: rapid.IntRange(0, len(vlib.PrioPool)-1).Draw(t, "prio"), Keep: true, Frags: []int{vlib.FragmentIndex(frag)}}
+		}
+		if rapid.Bool().Draw(t, "takeover-one-step") {
+			c.Steps = append(c.Steps, vlib.Step{Intents: []vlib.IntentOp{mk(oa, p[0]), mk(ob, p[1])}})
+		} else {
+			c.Steps = append(c.Steps, vlib.Step{Intents: []vlib.IntentOp{mk(oa, p[0])}}, vlib.Step{Intents: []vlib.IntentOp{mk(ob, p[1])}})
+		}
+		c.Steps = append(c.Steps, vlib.Step{Intents: []vlib.IntentOp{{Owner: oa, Kind: "delete", Keep: true, Form: "typed"}}})
+		n = rapid.IntRange(0, 4).Draw(t, "nsteps-tail")
+	}
 	for i := 0; i < n; i++ {
 		ni := rapid.SampledFrom([]int{1, 1, 2, 2, 3}).Draw(t, "nintents")
 		owners := rapid.Permutation([]int{0, 1, 2, 3}).Draw(t, "owners")
